@@ -3,6 +3,7 @@ import PMV.Driver.Cli
 import PMV.Driver.Printer
 import PMV.Driver.Fold
 import PMV.Driver.Strings
+import PMV.Driver.Rename
 open PMV
 
 def dispatch (cmd : String) (args : List Sexp) : Option String :=
@@ -14,6 +15,7 @@ def dispatch (cmd : String) (args : List Sexp) : Option String :=
   | "cli.violations" => Driver.Cli.violations args
   | "unparse" => Driver.Printer.unparse args
   | "unparse.expr" => Driver.Printer.unparseExpr args
+  | "rename.assign" => Driver.Rename.assignCmd args
   | "ministring" => Driver.Strings.ministring args
   | "strlex" => Driver.Strings.strlex args
   | "esc.violations" => Driver.Strings.escViolations args
